@@ -566,3 +566,10 @@ func (p *Program) FrozenFields(pkgPath, typeName string) []string {
 	sort.Strings(out)
 	return out
 }
+
+// BuildFor makes sure the SSA body of fn is built.
+func (p *Program) BuildFor(fn *ssa.Function) {
+	if fn != nil && fn.Pkg != nil {
+		p.build(fn.Pkg)
+	}
+}
